@@ -25,7 +25,7 @@ PALETTES = [
     {"name": "plain", "rx": {"r1": "r1", "r2": "r2", "r3": "r3", "r4": "r4"},
      "met": {"m1": "m1", "m2": "m2", "m3": "m3", "m4": "m4"},
      "gene": {"g1": "g1", "g2": "g2", "g3": "g3", "g4": "g4"}, "grp": {"grp1": "grp1"},
-     "scale": 1.0, "dyadic": True},
+     "scale": 1.0, "dyadic": True, "sids": True},
     {"name": "awkward", "rx": {"r1": "R.1", "r2": "a-b", "r3": "2r", "r4": "p:q"},
      "met": {"m1": "2x.y", "m2": "M-x", "m3": "glc__D_e", "m4": "u/v"},
      "gene": {"g1": "2x.1", "g2": "b-2", "g3": "for", "g4": "q:r"}, "grp": {"grp1": "my group"},
@@ -430,7 +430,10 @@ class ModelDriver:
             from . import model_io
             if model._contexts:
                 raise Skip("round trips are exercised outside contexts")
-            self.models[s] = model_io.round_trip(self, model, op["fmt"])
+            fmt = op["fmt"]
+            if fmt == "sbml_freplace_off" and not self.pal.get("sids", False):
+                fmt = "sbml"        # without id replacement the ids must be valid SBML SIds
+            self.models[s] = model_io.round_trip(self, model, fmt)
             return None
         if a == "Analyze":
             from . import model_analyses
@@ -485,7 +488,7 @@ class ModelDriver:
                 getok[x] = bool(ok)
                 owner[x] = bool(own)
         o["pos"], o["getok"], o["owner"] = pos, getok, owner
-        S, lb, ub, tt, rgenes, gprgenes, objc, sbo, ann = {}, {}, {}, {}, {}, {}, {}, {}, {}
+        S, lb, ub, tt, rgenes, gprgenes, objc, sbo, ann, note = {}, {}, {}, {}, {}, {}, {}, {}, {}, {}
         rxnMets = {}
         subsets = []
         n = len(GENE)
@@ -541,20 +544,19 @@ class ModelDriver:
                                      ("genes", GENE, self.gene, model.genes)):
             for x in uni:
                 ann[x] = 0
+                note[x] = 0
                 if conc[x] in lst:
                     ob = lst.get_by_id(conc[x])
-                    t = ob.annotation.get("tok", "0")
-                    t2 = ob.notes.get("tok", t)
                     try:
-                        ann[x] = int(t)
-                        if t2 != t:
-                            inexact.append("ann:%s:notes-differ" % x)
+                        ann[x] = int(ob.annotation.get("tok", "0"))
+                        note[x] = int(ob.notes.get("tok", "0"))
                     except (TypeError, ValueError):
                         inexact.append("ann:%s:bad" % x)
         for g in GRP:
             ann[g] = 0
+            note[g] = 0
         o.update({"S": S, "lb": lb, "ub": ub, "tt": tt, "rgenes": rgenes, "gprgenes": gprgenes, "objc": objc,
-                  "sbo": sbo, "ann": ann, "rxnMets": rxnMets})
+                  "sbo": sbo, "ann": ann, "note": note, "rxnMets": rxnMets})
         o["dir"] = str(model.objective_direction)
         metRxns, geneRxns, func = {}, {}, {}
         for m in MET:
@@ -695,8 +697,24 @@ class ModelDriver:
         old_bounds = cfg.bounds
         cfg.bounds = (-1000 * self.scale, 1000 * self.scale)
         events = []
+        hooks = []
+        mgr_ids = {}
+
+        def observer(name, kw):
+            m = kw.get("manager")
+            if m not in mgr_ids:
+                mgr_ids[m] = len(mgr_ids) + 1
+            hooks.append({"e": name, "m": mgr_ids[m], "n": int(kw.get("size", kw.get("depth", 0)))})
+        try:
+            from cobra.util import _verif
+            _verif.set_observer(observer)
+            hooks_on = bool(_verif.ENABLED)
+        except ImportError:
+            _verif = None
+            hooks_on = False
         try:
             for op in beh["ops"]:
+                del hooks[:]
                 raises, ret = "none", None
                 try:
                     with warnings.catch_warnings():
@@ -705,14 +723,17 @@ class ModelDriver:
                 except Skip:
                     raises = "skip"
                 except Exception as e:      # outcome of the call under test
-                    raises = type(e).__name__
+                    raises = getattr(e, "verif_name", type(e).__name__)
                 ev = {"op": op, "raises": raises,
                       "ret": {"ids": (ret or {}).get("ids", []), "n": (ret or {}).get("n", 0),
                               "med": (ret or {}).get("med", {r: MISSING for r in RX}),
                               "x": (ret or {}).get("x", []), "x2": (ret or {}).get("x2", [])},
+                      "hooks": list(hooks)[:400], "hooks_on": hooks_on,
                       "obs": [self.project(self.models[1]), self.project(self.models[2])]}
                 events.append(ev)
         finally:
+            if _verif is not None:
+                _verif.set_observer(None)
             cfg.bounds = old_bounds
             for m in self.models.values():
                 if m is not None:
